@@ -4,7 +4,6 @@ package c05
 // rejected record in a fresh worker, violation keys, evidence.
 
 import (
-	"encoding/json"
 	"fmt"
 	"os"
 	"path/filepath"
@@ -12,7 +11,6 @@ import (
 	"sort"
 	"strings"
 	"sync"
-	"time"
 
 	"verif/harness/core"
 )
@@ -36,7 +34,7 @@ const (
 	cpuPerKiBUs   = 100_000    // + 100 ms per KiB of input (20 x)
 	allocFloorKiB = 160 << 10  // 160 MiB for any call (20 x limits.StreamBudgetBase, 20 x the worst small input)
 	allocPerKiB   = 4096       // + 4 MiB per KiB of input (4 x limits.StreamBudgetMultiplier; 240 x the worst large input)
-	maxLenKiB     = 65536
+	maxLenKiB     = 16384      // beyond 16 MiB of input the bounds stop growing (32 bit arithmetic in TLC)
 )
 
 func envelopeCfg() string {
@@ -73,11 +71,9 @@ func judge(ctx *core.Ctx, recs []Rec) (bad []int, why []string, err error) {
 	if len(recs) == 0 {
 		return nil, nil, nil
 	}
-	// one TLC process judges about 30000 records per second; few big batches
-	batch := max(20000, (len(recs)+9)/10)
-	if batch > 150000 {
-		batch = 150000
-	}
+	// one TLC process judges about 30000 records per second: one process per
+	// call (the collector runs several calls side by side)
+	batch := 150000
 	type out struct {
 		Bad []int    `json:"bad"`
 		Why []string `json:"why"`
@@ -255,257 +251,6 @@ func describe(r *Rec) string {
 		r.Call, r.Arg, r.Len, r.Outcome, r.CpuUs, r.WallUs, r.AllocKB, r.G0, r.G1, r.Prod, r.Detail)
 }
 
-// conclude judges the records, confirms what TLC rejects, compares the
-// probes with the model and writes the evidence.
-func conclude(ctx *core.Ctx, pl *plan, pool *Pool, results map[string]*Result, recs []Rec) error {
-	bad, why, err := judge(ctx, recs)
-	if err != nil {
-		return err
-	}
-	ctx.Logf("tlc robust/Trace_Envelope judged %d call records of the real code, %d rejected", len(recs), len(bad))
-
-	// ---- evidence ----
-	calls := 0
-	var worstCpu, worstAlloc, worstCpuPerK, worstAllocPerK float64
-	byOutcome := map[string]int{}
-	byCall := map[string]int{}
-	for i := range recs {
-		r := &recs[i]
-		calls += max(r.N, 1)
-		byOutcome[r.Outcome]++
-		cc := r.Call
-		if j := strings.Index(cc, "/"); j > 0 && !strings.HasPrefix(cc, "probe") && !strings.HasPrefix(cc, "pipe") {
-			cc = cc[:j]
-		}
-		byCall[cc]++
-		if r.Outcome == "hang" || r.Outcome == "fatal" {
-			continue
-		}
-		k := float64(r.Len/1024 + 1)
-		worstCpu = max(worstCpu, float64(r.CpuUs))
-		worstAlloc = max(worstAlloc, float64(r.AllocKB))
-		if r.Len > 8192 {
-			worstCpuPerK = max(worstCpuPerK, float64(r.CpuUs)/k)
-			worstAllocPerK = max(worstAllocPerK, float64(r.AllocKB)/k)
-		}
-		info := pl.info[r.Case]
-		if info == nil {
-			continue
-		}
-		switch {
-		case strings.HasPrefix(info.class, "mut:") || strings.HasPrefix(info.class, "embed:"):
-			for _, m := range info.slots {
-				ctx.Ev.Distinct("explore|" + cc + "|" + r.Outcome + "|" + m.String())
-			}
-		case strings.HasPrefix(info.class, "seed:"):
-			ctx.Ev.Distinct("seed|" + info.name)
-		}
-	}
-	ctx.Ev.Eval(calls)
-	// the most expensive calls (what the calibration rests on)
-	top := func(less func(a, b *Rec) bool) []map[string]any {
-		idx := make([]int, 0, len(recs))
-		for i := range recs {
-			if recs[i].Outcome != "hang" && recs[i].Outcome != "fatal" {
-				idx = append(idx, i)
-			}
-		}
-		sort.Slice(idx, func(a, b int) bool { return less(&recs[idx[a]], &recs[idx[b]]) })
-		var out []map[string]any
-		for _, i := range idx[:min(5, len(idx))] {
-			r := &recs[i]
-			name := ""
-			if info := pl.info[r.Case]; info != nil {
-				name = info.class + " " + info.name
-			}
-			out = append(out, map[string]any{"case": name, "call": r.Call + " " + r.Arg, "len": r.Len, "cpu_us": r.CpuUs, "alloc_kib": r.AllocKB, "outcome": r.Outcome, "detail": r.Detail})
-		}
-		return out
-	}
-	ctx.Ev.Set("top_cpu", top(func(a, b *Rec) bool { return a.CpuUs > b.CpuUs }))
-	ctx.Ev.Set("top_alloc", top(func(a, b *Rec) bool { return a.AllocKB > b.AllocKB }))
-	if p := os.Getenv("C05_DUMP"); p != "" {
-		if data, err := core.NDJSON(recs); err == nil {
-			_ = os.WriteFile(p, data, 0o644)
-		}
-		names := map[string]string{}
-		for id, info := range pl.info {
-			names[id] = info.class + " " + info.name
-		}
-		if data, err := json.Marshal(names); err == nil {
-			_ = os.WriteFile(p+".names", data, 0o644)
-		}
-	}
-	ctx.Ev.Set("calibration", map[string]any{
-		"worst_cpu_us": worstCpu, "worst_alloc_kib": worstAlloc, "worst_cpu_us_per_kib(len>8k)": worstCpuPerK, "worst_alloc_kib_per_kib(len>8k)": worstAllocPerK,
-		"envelope": map[string]int{"cpu_floor_us": cpuFloorUs, "cpu_per_kib_us": cpuPerKiBUs, "alloc_floor_kib": allocFloorKiB, "alloc_per_kib": allocPerKiB},
-		"watchdog": pool.Watchdog.String(),
-	})
-	ctx.Ev.Set("records_by_outcome", byOutcome)
-	ctx.Ev.Set("records_by_call", byCall)
-	ctx.Ev.Set("cases", len(results))
-
-	// ---- P-A: model answer vs. real answer of the guarded call ----
-	replayed, agree := 0, 0
-	var mismatches []string
-	for id, res := range results {
-		info := pl.info[id]
-		if info.req.Wiring == nil {
-			if info.req.Pipe != nil || info.req.Family != nil {
-				ctx.Ev.Distinct(info.class + "|" + info.name)
-				if info.req.Pipe != nil {
-					replayed++
-				}
-			}
-			continue
-		}
-		w := info.req.Wiring
-		replayed++
-		for i := range res.Recs {
-			r := &res.Recs[i]
-			if !strings.HasPrefix(r.Call, "probe/") {
-				continue
-			}
-			if r.Gets != 0 || w.Work > 0 {
-				ctx.Ev.Distinct("wiring|" + info.name)
-			}
-			if r.Outcome == "hang" || r.Outcome == "fatal" || r.Outcome == "panic" {
-				continue // the verdict comes from the envelope
-			}
-			want := w.expectedProj()
-			if fmt.Sprint(want) == fmt.Sprint(r.Proj) || len(want) == 0 && len(r.Proj) == 0 {
-				agree++
-			} else if len(mismatches) < 12 {
-				mismatches = append(mismatches, fmt.Sprintf("%s: model %v (work %d), code %v (gets %d, %s)", info.name, want, w.Work, r.Proj, r.Gets, r.Detail))
-			} else {
-				mismatches = append(mismatches, "")
-			}
-			if r.Gets > w.Bound+1 && len(mismatches) < 12 {
-				mismatches = append(mismatches, fmt.Sprintf("%s: %d fetches on the real code, the model bounds them by %d", info.name, r.Gets, w.Bound))
-			}
-		}
-	}
-	ctx.Ev.AddReplayed(replayed)
-	ctx.Ev.Set("probe_answers_equal_to_model", agree)
-	// one sample of each binding
-	ids := make([]string, 0, len(results))
-	for id := range results {
-		ids = append(ids, id)
-	}
-	sort.Strings(ids)
-	sampled := map[string]bool{}
-	for _, id := range ids {
-		info, res := pl.info[id], results[id]
-		switch {
-		case info.req.Wiring != nil && !sampled["w"] && info.req.Wiring.Work >= 3 && len(res.Recs) > 0 && len(res.Recs[0].Proj) > 0:
-			sampled["w"] = true
-			w := info.req.Wiring
-			ctx.Ev.Sample(map[string]any{"kind": "model wiring materialised and walked", "walker": w.Walker, "kind_of_object": w.Kind, "slot_a": w.A, "slot_b": w.B,
-				"rendering": info.req.Variant, "model_answer": w.Out, "model_fetches": w.Work, "code_answer": res.Recs[0].Proj, "code_fetches": res.Recs[0].Gets, "calls_logged": len(res.Recs)})
-		case info.req.Pipe != nil && !sampled["p"] && info.req.Pipe.Stuck && len(res.Recs) > 0:
-			sampled["p"] = true
-			ctx.Ev.Sample(map[string]any{"kind": "Gen_Pipe row realised", "row": info.req.Pipe, "record": slimOf(&res.Recs[0]), "detail": res.Recs[0].Detail})
-		}
-	}
-
-	// ---- confirm and report ----
-	type suspect struct {
-		idx    int
-		clause string
-	}
-	byKey := map[string][]suspect{}
-	var keys []string
-	for j, i := range bad {
-		r := &recs[i]
-		name := ""
-		if info := pl.info[r.Case]; info != nil {
-			name = info.name
-		}
-		k := violationKey(r, why[j], name)
-		if _, ok := byKey[k]; !ok {
-			keys = append(keys, k)
-		}
-		byKey[k] = append(byKey[k], suspect{i, why[j]})
-	}
-	sort.Strings(keys)
-	var unreproduced []string
-	confirmPool, err := newPool()
-	if err != nil {
-		return err
-	}
-	confirmPool.confirming = true
-	confirmPool.Watchdog = 45 * time.Second
-	for _, k := range keys {
-		ss := byKey[k]
-		confirmed := false
-		tried := 0
-		for _, s := range ss {
-			if tried >= 3 {
-				break
-			}
-			tried++
-			r := &recs[s.idx]
-			info := pl.info[r.Case]
-			rc, err := makeReplay(confirmPool, info, results[r.Case], r, s.clause)
-			if err != nil {
-				return err
-			}
-			ok, rec2, err := confirm(ctx, confirmPool, rc)
-			if err != nil {
-				return err
-			}
-			if ok {
-				confirmed = true
-				what := fmt.Sprintf("%s [%s; %d records of this class] %s", info.class, info.name, len(ss), describe(rec2))
-				ctx.Violation(k, what, rc)
-				if len(ss) > 0 {
-					ctx.Ev.Sample(map[string]any{"kind": "rejected record (reproduced)", "key": k, "clause": s.clause, "case": info.name, "record": slimOf(rec2), "detail": rec2.Detail})
-				}
-				break
-			}
-		}
-		if !confirmed {
-			r := &recs[ss[0].idx]
-			unreproduced = append(unreproduced, fmt.Sprintf("%s: %s", k, describe(r)))
-		}
-	}
-	// samples of ordinary records
-	n := 0
-	for i := range recs {
-		r := &recs[i]
-		if info := pl.info[r.Case]; info != nil && (i%(len(recs)/3+1) == 0) && n < 3 {
-			n++
-			ctx.Ev.Sample(map[string]any{"kind": "call record accepted by Trace_Envelope", "case": info.name, "class": info.class, "record": slimOf(r), "proj": r.Proj})
-		}
-	}
-
-	if len(unreproduced) > 0 {
-		sort.Strings(unreproduced)
-		msg := fmt.Sprintf("%d rejected record classes did not reproduce in a fresh worker (not counted as violations):\n  %s", len(unreproduced), strings.Join(unreproduced, "\n  "))
-		if ctx.Violations() == 0 {
-			return core.Infra("%s", msg)
-		}
-		ctx.Logf("note: %s", msg)
-		ctx.Ev.Set("unreproduced_signals", len(unreproduced))
-	}
-	nm := len(mismatches)
-	if nm > 0 {
-		var shown []string
-		for _, m := range mismatches {
-			if m != "" {
-				shown = append(shown, m)
-			}
-		}
-		msg := fmt.Sprintf("Walk.tla and the code disagree on %d guarded calls (the model is not a description of this tree):\n  %s", nm, strings.Join(shown, "\n  "))
-		if ctx.Violations() == 0 && ctx.Ev.KnownFindingHits == 0 {
-			return core.Infra("%s", msg)
-		}
-		ctx.Logf("note: %s", msg)
-		ctx.Ev.Set("model_code_disagreements", nm)
-	}
-	return nil
-}
-
 func slimOf(r *Rec) slimRec {
 	call := r.Call
 	if i := strings.Index(call, "/"); i > 0 {
@@ -515,22 +260,23 @@ func slimOf(r *Rec) slimRec {
 }
 
 // makeReplay builds the self-contained replay case of a record.
-func makeReplay(pool *Pool, info *caseInfo, res *Result, r *Rec, clause string) (*replayCase, error) {
-	rc := &replayCase{Kind: "file", Name: info.name, Call: r.Call, Arg: r.Arg, Clause: clause, Pass: info.req.Pass}
+func makeReplay(req *Req, r *Rec, clause string) (*replayCase, error) {
+	info := req.info
+	rc := &replayCase{Kind: "file", Name: info.name, Call: r.Call, Arg: r.Arg, Clause: clause, Pass: req.Pass}
 	switch {
-	case info.req.Pipe != nil:
-		rc.Kind, rc.Pipe = "pipe", info.req.Pipe
-	case info.req.Calib != nil:
-		rc.Kind, rc.Calib = "calib", info.req.Calib.Kind
-	case info.req.Data != nil:
-		rc.Data = info.req.Data
+	case req.Pipe != nil:
+		rc.Kind, rc.Pipe = "pipe", req.Pipe
+	case req.Calib != nil:
+		rc.Kind, rc.Calib = "calib", req.Calib.Kind
+	case req.Data != nil || req.Raw:
+		rc.Data = req.Data
 	default:
-		data, err := info.req.input()
+		data, err := req.input()
 		if err != nil {
 			return nil, core.Infra("cannot rebuild case %s: %v", info.name, err)
 		}
 		rc.Data = data
-		rc.Wiring, rc.Var = info.req.Wiring, info.req.Variant
+		rc.Wiring, rc.Var = req.Wiring, req.Variant
 	}
 	return rc, nil
 }
@@ -571,7 +317,7 @@ func callClass(call string) string {
 			return "open"
 		case "filters":
 			return "decode"
-		case "nametree", "outline", "pages", "resolve":
+		default:
 			return w
 		}
 	}
